@@ -325,9 +325,33 @@ func histOps(hist []string) []crashOp {
 	return ops
 }
 
+// crashHeld: a read transaction with an open iterator kept across later operations of a history
+// (IO opens it, IC closes it): an open iterator pins the memtables it was created over.
+var crashHeld struct {
+	txn *Txn
+	it  *Iterator
+}
+
+func crashReleaseHeld() {
+	if crashHeld.it != nil {
+		crashHeld.it.Close()
+		crashHeld.txn.Discard()
+		crashHeld.it, crashHeld.txn = nil, nil
+	}
+}
+
 func execHistOp(db **DB, opts Options, op crashOp) error {
 	d := *db
 	switch op.Name {
+	case "IO":
+		crashReleaseHeld()
+		crashHeld.txn = d.NewTransaction(false)
+		crashHeld.it = crashHeld.txn.NewIterator(DefaultIteratorOptions)
+		crashHeld.it.Rewind()
+		return nil
+	case "IC":
+		crashReleaseHeld()
+		return nil
 	case "T2", "TV", "TD", "TX":
 		return d.Update(func(txn *Txn) error {
 			ks := make([]string, 0, len(op.Writes))
@@ -382,6 +406,7 @@ func execHistOp(db **DB, opts Options, op crashOp) error {
 	case "DA":
 		return d.DropAll()
 	case "R":
+		crashReleaseHeld()
 		if err := d.Close(); err != nil {
 			return err
 		}
@@ -449,6 +474,7 @@ func runHistory(t *testing.T, j *vlib.Job, hist []string) *crashRun {
 			return
 		}
 		cr.snapshot() // final state before Close
+		crashReleaseHeld()
 		_ = db.Close()
 		_ = os.RemoveAll(cr.dir)
 	})
